@@ -257,6 +257,10 @@ type Return struct{ Val Expr }
 // Blank is an empty line or a comment-only line.
 type Blank struct{ Comment string }
 
+// Raw is source text inserted verbatim (one or more lines, indented with the
+// block it is in). It is used to place rule-breaking edits; it cannot be interpreted.
+type Raw struct{ Lines []string }
+
 func (*Decl) stmt()     {}
 func (*Assign) stmt()   {}
 func (*CallStmt) stmt() {}
@@ -267,6 +271,7 @@ func (*ForIn) stmt()    {}
 func (*Break) stmt()    {}
 func (*Return) stmt()   {}
 func (*Blank) stmt()    {}
+func (*Raw) stmt()      {}
 
 // Param is a function or handler parameter.
 type Param struct {
